@@ -549,6 +549,10 @@ func (s *Sim) checkConvergence(c *Client) {
 			s.stat("exempt.silently_deleted", 1)
 			continue
 		}
+		if s.unsure[v] {
+			s.stat("exempt.unsure_query_variant", 1)
+			continue
+		}
 		if v.Deleted {
 			c.violate("C03", "d", "delete-lost", "client %s still holds %s as live although the service deleted it and everything has been delivered", c.Name, rid)
 			continue
@@ -634,6 +638,10 @@ func (s *Sim) checkIntervals(quiescent bool) {
 func (s *Sim) checkInterval(c *Client, iv *Interval, mustReachTail bool) {
 	_, v := s.W.lookup(c.expandCID(iv.RID))
 	if v == nil {
+		return
+	}
+	if s.unsure[v] {
+		s.stat("exempt.unsure_query_variant", 1)
 		return
 	}
 	strict := s.Cfg.P.Strict && !s.sawDerived[v]
